@@ -1464,6 +1464,14 @@ class Walker:
                 if discrs:
                     return int(discrs[idx])
                 return idx
+            # `?` on a freshly built Err/None (Ok/Some) breaks (continues): ControlFlow of Try::branch
+            if isinstance(pl, tuple) and pl and pl[0] == "try" and isinstance(pl[1], tuple) and pl[1] and pl[1][0] == "agg" and len(pl[1]) > 2 and names:
+                want = {"Err": "Break", "None": "Break", "Ok": "Continue", "Some": "Continue"}.get(pl[1][2])
+                if want in names:
+                    idx = names.index(want)
+                    if discrs:
+                        return int(discrs[idx])
+                    return idx
         return None
 
     def _go_after_loop(self, tgt, ev, events, known, blocks):
